@@ -97,17 +97,95 @@ func obligationQuery(o *Obligation) (string, string) {
 			terms = terms[:12]
 		}
 		terms = append(terms, o.Gen.S.instTerms...)
+		for _, t := range append([]string{}, terms...) {
+			if strings.HasPrefix(t, "|sk!") && strings.Contains(t, "!Int!") {
+				terms = append(terms, "(+ "+t+" 1)") // the neighbouring position (element removal / insertion)
+			}
+		}
+		var ctxTerms []string
+		{
+			ctx := map[string]bool{}
+			for _, a := range o.Gen.S.asserts {
+				if !strings.Contains(a, "(forall ") && len(a) < 4000 {
+					selectIndexTerms(a, ctx)
+				}
+			}
+			have := map[string]bool{}
+			for _, t := range terms {
+				have[t] = true
+			}
+			for t := range ctx {
+				if len(t) < 30 && !have[t] && !strings.Contains(t, "|q!") && o.Gen.S.isIntTerm(t) {
+					ctxTerms = append(ctxTerms, t)
+				}
+			}
+			sort.Slice(ctxTerms, func(i, j int) bool {
+				if len(ctxTerms[i]) != len(ctxTerms[j]) {
+					return len(ctxTerms[i]) < len(ctxTerms[j])
+				}
+				return ctxTerms[i] < ctxTerms[j]
+			})
+		}
 		if len(terms) > 0 {
-			budget := 240 + 40*len(o.Gen.S.instTerms)
+			budget := 400 + 40*len(o.Gen.S.instTerms)
 			for _, a := range o.Gen.S.asserts {
 				if !strings.Contains(a, "(forall ((|q!") && !strings.Contains(a, "(forall ((j Int))") {
 					continue
 				}
-				for _, inst := range groundInstances(a, terms, &budget) {
+				for _, inst := range groundInstances(a, terms, ctxTerms, &budget) {
 					extra = append(extra, "(assert "+inst+")")
 				}
 			}
 		}
+	}
+	if strings.Contains(g, "(exists ") {
+		// likely witnesses for the goal's existentials: Skolem terms of the instantiated hypotheses, the goal's own
+		// index terms, and small offsets of them
+		cand := map[string]bool{}
+		for _, e := range extra {
+			skolemApps(e, cand)
+		}
+		if o.Gen != nil {
+			for _, a := range o.Gen.S.asserts {
+				if !strings.Contains(a, "(forall ") {
+					skolemApps(a, cand)
+				}
+			}
+		}
+		tm := map[string]bool{}
+		selectIndexTerms(q, tm)
+		if o.Gen != nil {
+			// index terms the code itself used (short ones): loop counters are the usual witnesses
+			ctx := map[string]bool{}
+			for _, a := range o.Gen.S.asserts {
+				if !strings.Contains(a, "(forall ") && len(a) < 4000 {
+					selectIndexTerms(a, ctx)
+				}
+			}
+			for t := range ctx {
+				if len(t) < 40 {
+					tm[t] = true
+				}
+			}
+		}
+		var cs []string
+		for t := range cand {
+			if !strings.Contains(t, "|q!") {
+				cs = append(cs, t)
+			}
+		}
+		for t := range tm {
+			if !strings.Contains(t, "|q!") && len(t) < 120 && o.Gen != nil && o.Gen.S.isIntTerm(t) {
+				cs = append(cs, t, "(- "+t+" 1)")
+			}
+		}
+		sort.Strings(cs)
+		sort.SliceStable(cs, func(i, j int) bool { return len(cs[i]) < len(cs[j]) })
+		if len(cs) > 40 {
+			cs = cs[:40]
+		}
+		g = expandGoalExists(g, cs)
+		q = and(o.Guard, not(g))
 	}
 	return strings.Join(append(decls, extra...), "\n"), q
 }
